@@ -11,6 +11,7 @@ from psv.simk import _common, _pslinux, psutil
 ALL_EVENTS = ["net", "disk", "net_raw", "disk_raw", "clear_net", "clear_disk"]
 
 META = dict(
+    crosshair="c10.py",
     assumptions=[
         "the history that matters for a function is the sequence of its nowrap=True calls (nowrap=False calls neither read nor update it)",
         "a snapshot that lists no device at all counts as every device being absent",
